@@ -15,4 +15,22 @@ TEXT = {
         design_ref='DESIGN.md §5 C18, §6',
         note="Trusted: Lean kernel + standard axioms; the model of src/utils.rs:16-35 and src/ty/path.rs:75-194 (str::split, strip_prefix, is_ascii modelled byte-wise); harness/driver. The tree carries fix commit 67b2ecf (r#r#foo was accepted); the model follows the fixed code.",
     ),
+    'C06': dict(
+        technique='Lean 4 model of the V14 layout (independent encoder + parser) with proved tag tables, compact size classes and unique readability + byte-for-byte differential comparison with the real Encode/Decode in both directions',
+        level="Proof + correspondence: SIM.Model.Codec is the 'independent encoder and decoder written from the layout'; SIM.C06 proves the tag bijections (primitive 0..14, definition 0..7 = first byte), array = u32 length then id, bit-sequence = store then order, compact size classes 1/2/4/5 bytes on the four ranges, and unique readability (encode_prefix_free) for all registries. The property itself (agreement with the library on every registry) is decided by running the real Encode on generated registries and the real Decode on mutated encodings and comparing bytes/values with the layout encoder/decoder: any disagreement is a SPECFAIL of C06 with the registry or byte string as replay.",
+        design_ref='DESIGN.md §5 C06',
+        note="The quantifier 'every registry' is covered by proof only for the model's internal consistency; agreement of the Rust derive output with the layout is sampled (generated registries incl. every compact class boundary and malformed inputs), not proved. parity-scale-codec is modelled.",
+    ),
+    'C07': dict(
+        technique='Lean 4 proof of decode(encode r ++ rest) = (r, rest) and injectivity for all bounded registries (compositional Good-codec lemmas) + differential correspondence of the model codec with the real one',
+        level="Proof: SIM.C07.decode_encode (lossless, exact consumption, for all registries whose ids/lengths/indices/strings fit the Rust types, well-formed or not), encode_injective; determinism is functionality of encode. Tie: the model encoder/decoder are compared byte for byte with the real Encode/Decode on every generated case, and the library's own round trip, double encode and collision freedom are observed on the same cases.",
+        design_ref='DESIGN.md §5 C07',
+        note="Trusted: the model of the derive-generated codec (SIM.Model.Codec) corresponds to the code only through the differential runs; validUtf8 is Lean core's validator (theorems are generic in it).",
+    ),
+    'C14': dict(
+        technique='Lean 4 proof that the modelled decoder accepts only canonical encodings (decode bs = (r, rest) -> bs = encode r ++ rest) and resolve is total + mutation-based differential runs of the real decoder with panic capture and a counting allocator',
+        level="Proof for the logical half: SIM.C14.decode_canonical / decode_bounded / decode_consumes_prefix for ALL byte strings, rejection lemmas for non-canonical compacts, option bytes >= 2, tags >= 8 / >= 15, resolve_oob. Observed half (labelled partial): 'never panics, never aborts, memory proportional to input' are run-time facts of the Rust code and allocator; they are observed on truncations at every offset, bit flips, insertions, length-field corruption (incl. huge lengths) and random bytes, with the model decoder predicting accept/reject and value for every input. JSON inputs are covered by the json stream once C08's model is claimed (see DESIGN.md).",
+        design_ref='DESIGN.md §5 C14',
+        note="partial: the run-time clauses are sampled, not proved; the JSON half currently relies on serde_json's own totality and is exercised by the json stream only where modelled.",
+    ),
 }
